@@ -102,13 +102,7 @@ def check(ck):
         ok = len(sub) == 1 and cv.guarded(sub[0], lambda t: t == "errors", "F") and isinstance(cv.stmt_of(sub[0]), ast.Return)
         ck.ob("create_source_event_stream: the registered generator is called only without errors, and its stream is returned", ok, c, sub[0] if sub else c.node,
               construct="source:gate")
-        if sub:
-            a = sub[0].args
-            ca = strip_await(a[1]) if len(a) > 1 else None
-            ok = len(a) == 4 and unparse(a[0]) == c.positional_params[3] and isinstance(ca, ast.Call) and dotted(ca.func) == "coerce_arguments" and isinstance(a[1], ast.Await) and \
-                [unparse(x) for x in ca.args] == ["field_definition.arguments", "field_nodes[0]", "execution_context.variable_values", "execution_context.context"] and \
-                arg_text(ca, None, "coercer") == "field_definition.arguments_coercer" and unparse(a[2]) == "execution_context.context" and unparse(a[3]) == "info"
-            ck.ob("create_source_event_stream: the generator gets (root value, spec-coerced arguments, context, info)", ok, c, sub[0], construct="source:operands")
+        _source_rows(ck, repo, c)
         rs = cv.raises()
         # identified by their guards (the wording of the messages is free)
         nd = [r for r in rs if ("field_definition", "F") in cv.conditions(r)]
@@ -118,10 +112,6 @@ def check(ck):
         ck.ob("create_source_event_stream: a field without a registered generator is an error, not a call",
               len(ns) == 1 and ("field_definition.subscribe", "F") in cv.conditions(ns[0]) and sub and ("field_definition.subscribe", "T") in cv.conditions(sub[0]), c, ns[0] if ns else c.node,
               construct="source:no-generator")
-        st = {unparse(n.targets[0]): unparse(n.value) for n in walk_no_nested(c.node) if isinstance(n, ast.Assign) and isinstance(n.targets[0], ast.Name)}
-        ok = st.get("response_name") == "list(fields.keys())[0]" and st.get("field_nodes") == "fields[response_name]" and st.get("field_name") == "field_nodes[0].name.value" and \
-            st.get("field_definition") == f"get_field_definition({c.positional_params[0]}, operation_root_type, field_name)"
-        ck.ob("create_source_event_stream: the source is the first collected root field of the operation's root type", ok, c, c.node, construct="source:root-field", detail=str({k: st.get(k) for k in ("response_name", "field_nodes", "field_name", "field_definition")}))
         cf = cv.maybe_call("collect_fields")
         ck.ob("create_source_event_stream: root fields are collected from the selected operation's selection set",
               cf is not None and [unparse(a) for a in cf.args] == ["execution_context", "operation_root_type", "execution_context.operation.selection_set"] and cv.is_awaited(cf), c,
@@ -173,3 +163,42 @@ def check(ck):
         w = [c for c in FuncView(sc).calls("wraps_with_directives") if arg_text(c, None, "is_async_generator") == "True"]
         ok = len(w) == 1 and arg_text(w[0], 1) == "'on_schema_subscription'" and arg_text(w[0], 2) == sc.positional_params[2]
         ck.ob("bake_execute wraps the subscription executor with the generator-aware wrapper", ok, sc, w[0] if w else sc.node, construct="wiring:generator-wrapper")
+
+
+def _source_rows(ck, repo, c):
+    """Path-outcome rows of create_source_event_stream: on the path that starts the source, every operand resolved back to the
+    producers' results (intermediates, tuple unpacking and a flattened `await` substituted; the results of the producer
+    calls stand by role)."""
+    from ..pathtab import outcome_rows
+    cv = FuncView(c)
+    p = c.positional_params
+    producers = {"collect_fields": "FIELDS", "get_operation_root_type": "ROOT_TYPE", "build_resolve_info": "INFO"}
+
+    def opaque(v):
+        e = strip_await(v)
+        if isinstance(e, ast.Call) and callee_last(e) in producers:
+            return producers[callee_last(e)]
+        if isinstance(e, ast.Subscript) and isinstance(strip_await(e.value), ast.Call) and callee_last(strip_await(e.value)) == "build_execution_context" and isinstance(e.slice, ast.Constant):
+            return "CONTEXT" if e.slice.value == 0 else "ERRORS"
+        return None
+
+    rows = [r for r in outcome_rows(cv, opaque=opaque) if r["exit"] == "return_exit" and r["ret"] is not None and isinstance(strip_await(r["ret"]), ast.Call) and callee_last(strip_await(r["ret"])) == "subscribe"]
+    if not rows:
+        raise AnalysisError("create_source_event_stream: no path returns the source generator's stream")
+    firsts = ["FIELDS[list(FIELDS.keys())[0]]", "list(FIELDS.items())[0][1]", "next(iter(FIELDS.items()))[1]", "next(iter(FIELDS.values()))", "list(FIELDS.values())[0]",
+              "FIELDS[next(iter(FIELDS))]", "FIELDS[next(iter(FIELDS.keys()))]", "FIELDS[list(FIELDS)[0]]"]
+    for r in rows:
+        got = unparse(strip_await(r["ret"]))
+        ok_root = ok_ops = False
+        for nodes in firsts:
+            node = f"{nodes}[0]"
+            fd = f"get_field_definition({p[0]}, ROOT_TYPE, {node}.name.value)"
+            if got.startswith(f"{fd}.subscribe("):
+                ok_root = True
+                want = (f"{fd}.subscribe({p[3]}, await coerce_arguments({fd}.arguments, {node}, CONTEXT.variable_values, CONTEXT.context, coercer={fd}.arguments_coercer), "
+                        f"CONTEXT.context, INFO)")
+                ok_ops = ok_ops or got == want
+        ck.ob("create_source_event_stream: the source is the first collected root field of the operation's root type", ok_root, c, r["last"] or c.node, construct="source:root-field",
+              detail=got[:200])
+        ck.ob("create_source_event_stream: the generator gets (root value, spec-coerced arguments, context, info)", ok_ops, c, r["last"] or c.node, construct="source:operands",
+              detail=got[:400])
